@@ -148,8 +148,53 @@ func (c plConf) decode() plDecoded {
 
 func plMrate(r float64) int { return int(r*1000 + 0.5) }
 
-// the succession of simple parts the schedule denotes (docs: instance_step = once(from), then
-// repeatedly a pause of the step duration and once(step))
+// one item of a schedule as it is CONFIGURED (constructor name + arguments).  This is all the
+// specification gets: StartupMath.tla says how many tokens the configuration denotes and when.
+type plItem struct {
+	Ctor  string `json:"ctor"`
+	FromM int    `json:"from_m"`
+	ToM   int    `json:"to_m"`
+	Step  int    `json:"step"`
+	Times int    `json:"times"`
+	IFrom int    `json:"ifrom"`
+	ITo   int    `json:"ito"`
+	Dur   []int  `json:"dur"`
+}
+
+func (s plSched) desc() []plItem {
+	if s.Ctor == "composite" {
+		out := []plItem{}
+		for _, k := range s.Kids {
+			out = append(out, k.desc()...)
+		}
+		return out
+	}
+	it := plItem{Ctor: s.Ctor, Step: int(s.Step), Times: int(s.Times), Dur: vt.Limbs(int64(s.Dur))}
+	switch s.Ctor {
+	case "const":
+		it.FromM, it.ToM = plMrate(s.From), plMrate(s.From)
+	case "line", "step":
+		it.FromM, it.ToM = plMrate(s.From), plMrate(s.To)
+	case "instance_step":
+		it.IFrom, it.ITo = int(s.From), int(s.To)
+	}
+	return []plItem{it}
+}
+
+// rough size of a schedule, used by the GENERATOR only (to keep runs small); never logged
+func (s plSched) estTokens() int {
+	n := 0
+	for _, p := range s.parts() {
+		if p.Kind == "once" {
+			n += p.Times
+		} else {
+			n += int(float64(p.FromM+p.ToM) / 2000 * float64(p.durNs) / 1e9)
+		}
+	}
+	return n
+}
+
+// generator-side expansion into simple parts (estTokens only)
 func (s plSched) parts() []plPart {
 	mk := func(kind string, from, to float64, step, times int64, d time.Duration) plPart {
 		return plPart{Kind: kind, FromM: plMrate(from), ToM: plMrate(to), Step: int(step), Times: int(times),
@@ -164,6 +209,8 @@ func (s plSched) parts() []plPart {
 		return []plPart{mk("line", s.From, s.To, 0, 0, s.Dur)}
 	case "step":
 		return []plPart{mk("step", s.From, s.To, s.Step, 0, s.Dur)}
+	case "unlimited":
+		return nil
 	case "instance_step":
 		out := []plPart{mk("once", 0, 0, 0, int64(s.From), 0)}
 		for i := int64(s.From) + s.Step; i <= int64(s.To); i += s.Step {
@@ -677,42 +724,121 @@ func plRandRPS(rng *rand.Rand, long bool) plSched {
 
 // startup profiles with steps of 20..60 ms (slow) or a few ms (fast)
 func plRandStartup(rng *rand.Rand, n int, slow bool) plSched {
+	for {
+		s := plRandStartup1(rng, n, slow)
+		if s.estTokens() <= 12 {
+			return s
+		}
+	}
+}
+
+func plRandStartup1(rng *rand.Rand, n int, slow bool) plSched {
 	step := plMs(2 + rng.Intn(6))
 	cstep := plMs([]int{2, 4, 5, 8}[rng.Intn(4)]) // const parts: 1000/step is an exact rate
 	if slow {
 		step = plMs(20 + rng.Intn(41))
 		cstep = plMs([]int{20, 25, 40, 50}[rng.Intn(4)])
 	}
-	switch rng.Intn(4) {
+	// instance_step over ALL small parameter triples: from 0..3, to below / equal / above from, (to - from) a
+	// multiple of step or not, step larger than to - from
+	istep := func() plSched {
+		return plSched{Ctor: "instance_step", From: float64(rng.Intn(4)), To: float64(rng.Intn(9)),
+			Step: int64(1 + rng.Intn(4)), Dur: step}
+	}
+	// const with fractional ops and a duration that does not hold a whole number of periods
+	fconst := func() plSched {
+		if slow {
+			return plSched{Ctor: "const", From: []float64{12.5, 33.3, 62.5}[rng.Intn(3)], Dur: plMs(40 + rng.Intn(121))}
+		}
+		return plSched{Ctor: "const", From: []float64{125.5, 250.7, 412.5}[rng.Intn(3)], Dur: plMs(6 + rng.Intn(15))}
+	}
+	pause := plSched{Ctor: "const", From: 0, Dur: step}
+	switch rng.Intn(8) {
 	case 0:
+		if rng.Intn(10) == 0 {
+			return plSched{Ctor: "once", Times: 0} // a startup profile without any token
+		}
 		return plSched{Ctor: "once", Times: int64(n)}
 	case 1:
 		// n tokens, one per step
 		rate := float64(time.Second) / float64(cstep)
 		return plSched{Ctor: "const", From: rate, Dur: time.Duration(n) * cstep}
-	case 2:
-		from := rng.Intn(3)
-		if from > n {
-			from = n
+	case 2, 3:
+		return istep()
+	case 4:
+		return fconst()
+	case 5:
+		// composites containing instance_step
+		ks := []plSched{}
+		if rng.Intn(2) == 0 {
+			ks = append(ks, plSched{Ctor: "once", Times: int64(rng.Intn(3))})
 		}
-		st := 1 + rng.Intn(3)
-		to := from + ((n-from)/st)*st
-		if to == 0 {
-			from, to = 1, 1
+		ks = append(ks, istep())
+		switch rng.Intn(3) {
+		case 0:
+			ks = append(ks, pause, plSched{Ctor: "once", Times: int64(1 + rng.Intn(2))})
+		case 1:
+			ks = append(ks, istep())
 		}
-		return plSched{Ctor: "instance_step", From: float64(from), To: float64(to), Step: int64(st), Dur: step}
+		return plSched{Ctor: "composite", Kids: ks}
+	case 6:
+		// empty parts and fractional rates inside a composite
+		return plSched{Ctor: "composite", Kids: []plSched{{Ctor: "once", Times: 0}, fconst(), {Ctor: "once", Times: int64(rng.Intn(3))}}}
 	}
 	a := 1 + rng.Intn(n)
 	ks := []plSched{{Ctor: "once", Times: int64(a)}}
 	if a < n {
-		ks = append(ks, plSched{Ctor: "const", From: 0, Dur: step}, plSched{Ctor: "once", Times: int64(n - a)})
+		ks = append(ks, pause, plSched{Ctor: "once", Times: int64(n - a)})
 	} else {
-		ks = append(ks, plSched{Ctor: "const", From: 0, Dur: step})
+		ks = append(ks, pause)
 	}
 	if rng.Intn(2) == 0 {
 		ks = append(ks, plSched{Ctor: "const", From: float64(time.Second) / float64(cstep), Dur: 2 * cstep})
 	}
 	return plSched{Ctor: "composite", Kids: ks}
+}
+
+// C12: the complete small parameter space of the startup constructors, one run each.  Every instance owns a
+// one-token profile and the ammo is unbounded, so nothing cuts the start short: the starter drains the startup
+// schedule and the number and the instants of ALL its tokens are compared with StartupMath's.
+func plEnumStartupConfs(seed int64) []plConf {
+	var out []plConf
+	add := func(st plSched) {
+		i := len(out)
+		c := plConf{Case: -1, Startup: st, RPS: plSched{Ctor: "once", Times: 1}, Per: true, A: -1,
+			Explicit: i%4 != 3, ShotMax: time.Duration(i%2) * 300 * time.Microsecond}
+		c.ViaConf = (int64(i)+seed)%3 == 0 && !st.hasOnceZero()
+		c.YamlShape = (int64(i)+seed)%2 == 0
+		out = append(out, c)
+	}
+	pause := plSched{Ctor: "const", From: 0, Dur: plMs(3)}
+	i := 0
+	for from := 0; from <= 3; from++ {
+		for to := 0; to <= 8; to++ {
+			for step := 1; step <= 4; step++ {
+				is := plSched{Ctor: "instance_step", From: float64(from), To: float64(to), Step: int64(step), Dur: plMs(2 + (i+int(seed))%3)}
+				switch (i + int(seed)) % 4 {
+				case 1:
+					add(plSched{Ctor: "composite", Kids: []plSched{{Ctor: "once", Times: 1}, is}})
+				case 2:
+					add(plSched{Ctor: "composite", Kids: []plSched{is, pause, {Ctor: "once", Times: 1}}})
+				default:
+					add(is)
+				}
+				i++
+			}
+		}
+	}
+	for _, ops := range []float64{125.5, 250.7, 333.3, 412.5, 500, 0.4, 0} {
+		for _, d := range []int{6, 9, 10, 13, 20} {
+			add(plSched{Ctor: "const", From: ops, Dur: plMs(d)})
+		}
+	}
+	for k := 0; k <= 4; k++ {
+		add(plSched{Ctor: "once", Times: int64(k)})
+		add(plSched{Ctor: "composite", Kids: []plSched{{Ctor: "once", Times: 0}, pause, {Ctor: "once", Times: int64(k)}}})
+	}
+	return out
 }
 
 func plRandConf(rng *rand.Rand, focus string) plConf {
@@ -871,6 +997,8 @@ func poolMain(args []string) {
 				confs = append(confs, plCaseConf(rng, m, i))
 			}
 		}
+	} else if *focus == "c12enum" {
+		confs = plEnumStartupConfs(seed)
 	} else {
 		for i := 0; i < *runs; i++ {
 			rng := rand.New(rand.NewSource(seed*1000003 + int64(i)))
@@ -895,8 +1023,9 @@ func poolMain(args []string) {
 	for i, res := range results {
 		c := res.conf
 		w.Emit(map[string]interface{}{"run": i, "seq": 0, "ev": "conf",
-			"n": c.Startup.tokens(), "t": c.RPS.tokens(), "tmin": c.RPS.minTokens(), "a": c.A, "per": c.Per, "discard": c.Discard,
-			"sparts": c.Startup.parts(), "explicit": c.Explicit, "case": c.Case,
+			// n_impl, t, tmin: what the REAL schedules report before their start (Left()); sdesc, rdesc: the configuration
+			"n_impl": c.Startup.tokens(), "t": c.RPS.tokens(), "tmin": c.RPS.minTokens(), "a": c.A, "per": c.Per, "discard": c.Discard,
+			"sdesc": c.Startup.desc(), "rdesc": c.RPS.desc(), "explicit": c.Explicit, "case": c.Case,
 			"desc": fmt.Sprintf("startup=%s rps=%s per=%v discard=%v a=%d past=%s shot<=%s provdelay=%s explicit=%v viaconf=%v yamlshape=%v",
 				c.Startup, c.RPS, c.Per, c.Discard, c.A, c.Past, c.ShotMax, c.ProvDelay, c.Explicit, c.ViaConf, c.ViaConf && c.YamlShape)})
 		for _, e := range res.evs {
